@@ -30,7 +30,7 @@ from lxml import html
 from lxml.builder import E
 
 from spyne.protocol.soap.soap11 import Soap11
-from spyne.protocol.xml import _append
+from spyne.protocol.xml import _append, _xml_safe_text
 from spyne.util.six import string_types
 from spyne.util.etreeconv import root_dict_to_etree
 from spyne.const.xml import NS_SOAP12_ENV, NS_XML, PREFMAP
@@ -87,7 +87,8 @@ class Soap12(Soap11):
 
     def fault_to_parent(self, ctx, cls, inst, parent, ns, **_):
         reason = E("{%s}Reason" % self.ns_soap_env)
-        reason.append(E("{%s}Text" % self.ns_soap_env, inst.faultstring,
+        reason.append(E("{%s}Text" % self.ns_soap_env,
+                                             _xml_safe_text(inst.faultstring),
                         **{'{%s}lang' % NS_XML: inst.lang}))
 
         subelts = [
